@@ -222,7 +222,7 @@ class RelayMode(vlib.Mode):
                                                                       stats(sig="tampered"), stats(exp="a"), "-", tok(now)])
                 case.append(f"status {cred}")
             elif r < 0.93:
-                st["now"] += rng.choice([1, 5, 29, 30, 31, 100, 3700])
+                st["now"] += rng.choice([1, 5, 29, 30, 31, 100, 3700, -5, -1500])   # the clock may also be set back
                 case.append(f"now {st['now']}")
             else:
                 nj = st.get("joined", 0)
